@@ -45,22 +45,32 @@ def run(ck):
     ck.rule("C18-O1", "level mapping debug/info/warning/error/fatal for the five message types, in code and in docs/api/formatters.md")
     ck.rule("C18-O2", "names skipped in the 'extra' loop == names with a dedicated tag/context slot; every other attribute is inserted unconditionally via QJsonValue::fromVariant; nested objects are attached after being filled")
     ck.rule("C18-O3", "event_id fresh per call in 32-hex form; timestamp = time() -> UTC -> ISO-8601; level = map(type()); message.formatted = message(); logger only for non-empty non-'default' category; fingerprint = [level, category or 'default', message().left(100)]; compact serialisation")
-    lv = F.fn("qtMsgTypeToSentryLevel")
+    lv = F.fn("qtMsgTypeToSentryLevel", optional=True)
     fn = F.fn(SF + "::format")
     ck.touch(lv, fn)
     # ---- O1
     en = F.enums.get("QtMsgType")
     ck.require(en is not None, "enum QtMsgType not found")
     val = {e["name"]: e["value"] for e in en["enumerators"]}
-    sws = lv.find(lambda n: n.get("k") == "switch")
-    ck.require(len(sws) == 1 and is_ref_to(sws[0].get("cond"), lv.params[0]["decl"]), "qtMsgTypeToSentryLevel is no longer a switch on its parameter")
-    tab = switch_table(lv, sws[0])
-    got = {}
-    for name in WANT_LEVEL:
-        leaf = tab.get(val[name], tab.get("default"))
-        got[name] = const_str(leaf) if isinstance(leaf, dict) else None
-    ok = got == WANT_LEVEL
-    ck.ob("C18-O1", sitestr(lv, sws[0]), ok, "level table %s" % got if ok else "level table %s differs from %s" % (got, WANT_LEVEL), key="qtMsgTypeToSentryLevel|table")
+    sws = lv.find(lambda n: n.get("k") == "switch") if lv is not None else []
+    by_cases = None
+    if lv is not None and len(sws) == 1 and is_ref_to(sws[0].get("cond"), lv.params[0]["decl"]):
+        tab = switch_table(lv, sws[0])
+        got = {}
+        for name in WANT_LEVEL:
+            leaf = tab.get(val[name], tab.get("default"))
+            got[name] = const_str(leaf) if isinstance(leaf, dict) else None
+        ok = got == WANT_LEVEL
+        ck.ob("C18-O1", sitestr(lv, sws[0]), ok, "level table %s" % got if ok else "level table %s differs from %s" % (got, WANT_LEVEL), key="qtMsgTypeToSentryLevel|table")
+    else:
+        # no dedicated mapping function (or not a switch): the values format() publishes are tabulated by cases below
+        by_cases = level_values_by_cases(ck, F, fn, val)
+        got = by_cases[0] if by_cases else {}
+        if by_cases is None:
+            ck.ob("C18-O1", sitestr(fn), None, "the level mapping is neither a switch in qtMsgTypeToSentryLevel nor an expression the evaluation by cases can tabulate")
+        else:
+            ok = got == WANT_LEVEL
+            ck.ob("C18-O1", sitestr(fn), ok, "level table %s (event['level'] evaluated for the five message types)" % got if ok else "level table %s differs from %s" % (got, WANT_LEVEL), key="qtMsgTypeToSentryLevel|table")
     dt = docs_level_table()
     if dt is None:
         ck.ob("C18-O1", "docs/api/formatters.md", None, "Severity Level Mapping table not found in the documentation")
@@ -468,7 +478,14 @@ def run(ck):
     if s:
         v = deref_local(fn, s["value"])
         ok = is_call(v, "qtMsgTypeToSentryLevel") and is_call(deref_local(fn, v["args"][0]), LM + "::type") and obj_is_param(skip_copies(deref_local(fn, v["args"][0])), fn, 0)
-        ck.ob("C18-O3", sitestr(fn, s["node"]), ok, "level = qtMsgTypeToSentryLevel(lmsg.type())" if ok else "level = %s" % describe(v), key="format|level")
+        if not ok and by_cases is not None:
+            ck.ob("C18-O3", sitestr(fn, s["node"]), True, "level = %s, tabulated for the five message types (C18-O1)" % describe(v)[:60], key="format|level")
+        elif not ok and lv is not None:
+            bc = level_values_by_cases(ck, F, fn, val)
+            okc = bc is not None and bc[0] == WANT_LEVEL
+            ck.ob("C18-O3", sitestr(fn, s["node"]), okc if bc is not None else None, "level = %s gives %s for the five message types" % (describe(v)[:60], bc[0] if bc else "?"), key="format|level")
+        else:
+            ck.ob("C18-O3", sitestr(fn, s["node"]), ok, "level = qtMsgTypeToSentryLevel(lmsg.type())" if ok else "level = %s" % describe(v), key="format|level")
     s = single("message")
     if s:
         v = skip_copies(s["value"])
@@ -528,7 +545,18 @@ def run(ck):
             if len(apps) == 3:
                 a0 = skip_copies(deref_local(fn, json_value_inner(apps[0]["args"][0])))
                 ok0 = is_call(a0, "qtMsgTypeToSentryLevel") and is_call(deref_local(fn, a0["args"][0]), LM + "::type")
-                ck.ob("C18-O3", sitestr(fn, apps[0]), ok0, "fingerprint[0] = level" if ok0 else "fingerprint[0] = %s" % describe(a0), key="format|fingerprint-0")
+                if not ok0:
+                    # whatever its form: the first entry must be the published level for each of the five message types
+                    bc = by_cases if by_cases is not None else level_values_by_cases(ck, F, fn, val)
+                    if bc is not None and bc[1] is not None:
+                        okc = bc[1] == bc[0] and bc[0] == WANT_LEVEL or (bc[1] == WANT_LEVEL)
+                        diff = sorted(k for k in WANT_LEVEL if bc[1].get(k) != WANT_LEVEL[k])
+                        ck.ob("C18-O3", sitestr(fn, apps[0]), okc, "fingerprint[0] is the level for all five message types" if okc else
+                              "fingerprint[0] = %s: %s, but the level is %s" % (describe(a0)[:40], {k: bc[1].get(k) for k in diff}, {k: WANT_LEVEL[k] for k in diff}), key="format|fingerprint-0")
+                    else:
+                        ck.ob("C18-O3", sitestr(fn, apps[0]), None, "fingerprint[0] = %s could not be tabulated" % describe(a0)[:60], key="format|fingerprint-0")
+                else:
+                    ck.ob("C18-O3", sitestr(fn, apps[0]), ok0, "fingerprint[0] = level", key="format|fingerprint-0")
                 a1 = json_value_inner(apps[1]["args"][0])
                 ok1 = False
                 if catdecl is not None:
@@ -548,3 +576,37 @@ def run(ck):
                       key="format|fingerprint-2")
         else:
             ck.ob("C18-O3", sitestr(fn, s["node"]), None, "fingerprint is not a local array")
+
+
+def level_values_by_cases(ck, F, fn, val):
+    """({type name: event['level']}, {type name: fingerprint[0]} or None) evaluated from the source of format() for the five message
+    types (engine/conc.py: locals are followed to their initialisers, helper functions are entered); None outside the fragment"""
+    from engine.conc import Conc, Unknown
+    sets = [x for x in json_sets(fn) if x["key"] == "level"]
+    if len(sets) != 1:
+        return None
+    fps = [n for n in fn.calls() if n.get("ck") == "member" and name_is(n.get("callee"), "QJsonArray::append") and n.get("args")]
+    fps = sorted(fps, key=lambda n: (n.get("l", 0), n.get("c", 0)))
+    lev, fp0 = {}, {}
+    try:
+        for name in WANT_LEVEL:
+            def leaf(n, env, name=name):
+                if is_call(n, LM + "::type") and obj_is_param(skip_copies(n), fn, 0):
+                    return val[name]
+                return None
+            c = Conc(F, leaf=leaf)
+            lev[name] = c.eval(json_value_inner(sets[0]["value"]), {"__fn__": fn})
+            if fps:
+                try:
+                    fp0[name] = Conc(F, leaf=leaf).eval(json_value_inner(fps[0]["args"][0]), {"__fn__": fn})
+                except Unknown:
+                    fp0 = None
+                    fps = []
+    except Unknown as e:
+        ck.notes.append("level by cases: %s" % e)
+        return None
+    if not all(isinstance(v, str) for v in lev.values()):
+        return None
+    if fp0 is not None and not all(isinstance(v, str) for v in fp0.values()):
+        fp0 = None
+    return lev, (fp0 or None)
